@@ -181,7 +181,12 @@ Definition violates_c02 (c : caseR) : bool :=
         || Nat.ltb (zcount id (map sr_id stored)) (zcount id obs)) obs
       || match q_pre q with
          | None => negb (zperm_eqb (map sr_id (filter (row_matches (tok_of tok) (re_of re) q) stored)) obs)
-         | Some _ => false
+         | Some _ =>
+             (* block-granular: exactly the matching rows of the blocks whose metadata passes the prefilter;
+                in particular nothing from a block lacking the metadata a condition references *)
+             negb (zperm_eqb (map sr_id (flat_map (fun b => if block_passes (q_pre q) (cb_meta b)
+                                                             then filter (row_matches (tok_of tok) (re_of re) q) (cb_rows b) else [])
+                                                  (flat_map cf_blocks files))) obs)
          end
   | _ => false
   end.
